@@ -110,6 +110,13 @@ def gen(rng, tier, quarantine=()):
             need_tool = True
         rec = {"op": "mk", "id": f"o{i}", "kind": kind, "sels": [sel], "how": how,
                "nojudge": True, "filtered": rng.random() < 0.5}
+        if kind == "tweak" and not refusal and rng.random() < 0.4:
+            # several entries in one tweaking() call: another variable of the function, another value
+            others = [n for n in names if n != focus and "param" not in forms.get(n, ()) and n not in fnir.get("mutable", ())]
+            if others:
+                f2 = rng.choice(others)
+                rec["more"] = [{"sel": {"levels": [{"fn": qual, "caps": [], "sibs": []}], "focus": {"var": f2, "as": f2}},
+                                "how": ["const", rng.choice([1, 8, 321])]}]
         earlier = [r for r in recs if r["kind"] in ("tweak", "rewrite")]
         if kind in ("tweak", "rewrite") and earlier and nover == 2 and rng.random() < 0.6:
             # derived from the other overlay (base.tweaking(...)): it carries that overlay's rules --
